@@ -107,6 +107,7 @@ def time_alphabet():
     good.append(datetime.datetime(2024, 1, 1, 0, 0, 0, 999999))        # sub-second part is dropped
     good.append(datetime.datetime(2040, 1, 1, tzinfo=datetime.timezone.utc))
     bad = [at(rc.TIME_MIN_UNIX - 1), at(rc.TIME_MAX_UNIX + 1), datetime.datetime(1900, 1, 1), datetime.datetime(1960, 1, 1),
+           datetime.datetime(1899, 12, 31, 23, 59, 59), datetime.datetime(1850, 6, 1), datetime.datetime(2172, 3, 15, 12, 56, 32), datetime.datetime(2500, 1, 1),
            datetime.datetime(2200, 1, 1), datetime.datetime(2105, 1, 1), datetime.date(2020, 1, 1), 1700000000, "2020-01-01"]
     return good, bad
 
@@ -266,6 +267,10 @@ def check_bad(A, code, vendor, tname, good, bad, out):
     kind = type(bad).__name__
     if tname == "time" and isinstance(bad, datetime.datetime):
         kind = "datetime-before-1968-01-20T03:14:08Z" if bad < datetime.datetime(2000, 1, 1) else "datetime-after-2104-02-26T09:42:23Z"
+        # instants whose seconds-since-1900 count does not even fit one 2^32 cycle around the window are a separate class: the
+        # library rejects them today (the known wrap only concerns counts that fit 32 bits in the neighbouring era)
+        if bad < datetime.datetime(1900, 1, 1) or bad >= datetime.datetime(2172, 3, 15, 12, 56, 32):
+            kind += ":beyond-one-32-bit-cycle"
     out.append(Violation(f"avp:{tname}:out-of-domain-accepted:{kind}",
                          f"{case}: accepted, payload {a.payload.hex()[:40]} (was {before.hex()[:40]})", case))
     try:
